@@ -100,6 +100,9 @@ class Backend:
     def identity_circuit(self, n):
         return self.mod.identity_circuit(n)
 
+    def mk_mask(self, qubits, n):
+        return mk_mask(qubits, n)
+
 
 class TorchBackend(Backend):
     name = "torch"
@@ -128,6 +131,9 @@ class TorchBackend(Backend):
         st = self.mod.StabilizerState(self.clone(gs), self.clone(ps))
         st.r = int(r)
         return st
+
+    def mk_mask(self, qubits, n):
+        return self.torch.tensor(mk_mask(qubits, n))
 
 
 _BACKENDS = {}
